@@ -1,6 +1,7 @@
 import SqlgrepModel.Lemmas.JoinRefine
 import SqlgrepModel.Lemmas.JoinNames
 import SqlgrepModel.Lemmas.JoinBatch
+import SqlgrepModel.Model.JoinClause
 /-
 C05 — JOIN pairs exactly the rows with equal join keys.
 
@@ -187,6 +188,24 @@ theorem join_names_star (qy : Query) (j : JoinInfo) (r : Line) (s : List Value) 
     (pairRow qy.table j r s).2 = qy.table.columns ++ j.joined.columns.map (starKey qy.table j) ∧
     (pairRow qy.table j r s).2.map ((pairRow qy.table j r s).1.get .table) = (r.row ++ s).map some :=
   ⟨rfl, star_values qy.table r.row r.text j s h hr hs⟩
+
+/-- **the side of `ON` is irrelevant**: `ON a.x = b.y` and `ON b.y = a.x` lower to the same join (`resolveJoin` =
+`transform_join`), whenever the joined table is not the queried table itself -/
+theorem join_side_irrelevant (fromTable : String) (on : OnClause) (hne : on.joinerTable ≠ fromTable) :
+    resolveJoin fromTable on.swap = resolveJoin fromTable on := by
+  unfold resolveJoin OnClause.swap
+  simp only
+  by_cases h1 : on.leftTable = fromTable <;> by_cases h2 : on.rightTable = fromTable <;>
+    by_cases h3 : on.rightTable = on.joinerTable <;> by_cases h4 : on.leftTable = on.joinerTable <;>
+    simp_all
+
+/-- the joiner column is the one written with the queried table, the joined column the one written with the joined
+table — on whichever side they stand -/
+theorem join_sides_resolved (fromTable joined x y : String) (hne : joined ≠ fromTable) :
+    resolveJoin fromTable ⟨joined, fromTable, x, joined, y⟩ = .ok (x, y) ∧
+    resolveJoin fromTable ⟨joined, joined, y, fromTable, x⟩ = .ok (x, y) := by
+  unfold resolveJoin
+  simp [hne]
 
 /-! ### missing column / missing file -/
 
